@@ -202,6 +202,8 @@ def main(argv=None):  # pylint: disable=too-many-locals,too-many-branches,too-ma
     parser.add_argument('--replay', default=None)
     parser.add_argument('--triage', action='store_true')
     parser.add_argument('--shards', type=int, default=None)
+    parser.add_argument('--emit-findings', default=None,
+                        help='development aid: dump the unknown violations as known-findings entries for review')
     args = parser.parse_args(argv)
     prop = args.property.upper()
     seed = bootstrap.seed()
@@ -261,12 +263,20 @@ def main(argv=None):  # pylint: disable=too-many-locals,too-many-branches,too-ma
             print('VIOLATION property=%s replay=%s' % (prop, path))
             print('  key=%s\n  what=%s' % (key, violation['what'][:300]))
 
+    if args.emit_findings:
+        with open(args.emit_findings, 'w') as handle:
+            json.dump([{'property': prop, 'status': 'open', 'key': key, 'what': violation['what'][:300],
+                        'witness': violation['case']} for key, violation in by_key.items()], handle, indent=1)
+
     # inconclusive?
     reasons = list(merged['inconclusive']) + problems
     floors = check_class(args.tier, seed).floors()
     totals = dict(merged['stats'])
     totals['evaluations'] = merged['evaluations']
     totals['distinct_nontrivial'] = len(merged['digests'])
+    for name, value in merged['extra'].items():
+        if isinstance(value, list):
+            totals[name] = len(value)
     for name, minimum in floors.items():
         if totals.get(name, 0) < minimum:
             reasons.append('monitor floor not reached: %s=%s < %s' % (name, totals.get(name, 0), minimum))
